@@ -10,6 +10,19 @@ TRUSTED_COMMON = [
 ]
 
 PROPS = {
+    "C06": dict(
+        suites=[60],
+        design_ref="DESIGN.md section 5, C06",
+        rule=("suite 60: kind 0 encode (exhaustive u8 and u16, every 2^k and its neighbours for u32/u64, random), kind 1 decode (all byte strings of length <= 2 -- thorough <= 3 -- per width, strings of length 0..10 with 0..l leading zeros), "
+              "kind 2 text (valid strings, overlong / surrogate / > U+10FFFF / truncated sequences with prefixes and suffixes, all 1- and many 2..4-byte sequences, mutated random strings), kinds 3-6 typed accessors on random packet states "
+              "(add_option_as / set_options_as per width and for strings, set_observe_value, get_observe_value and get_content_format on raw states); verdict computed from be_min / be_value only; non-trivial = in the accessor's domain; class = kind; distinct = distinct input"),
+        level_text=("Theorems for every value and width, no bound: C06_encode_minimal (the drain loop with its assert yields be_min v for v < 256^w), C06_min_value / C06_min_no_leading_zero / C06_min_length (be_min is the shortest big-endian form; zero is empty), "
+                    "C06_decode (any string up to the width decodes to its big-endian value, longer ones are rejected; the 64-bit shift-and-add loses nothing and the final cast is exact), C06_roundtrip, C06_add_option_as and C06_observe_value "
+                    "(typed setters store exactly these encodings and touch nothing else; typed getters read them back). By induction on the value / the byte string."),
+        level_note=("Hand-written models of option_value.rs and the typed accessors tied to the Rust by differential execution (~2*10^5 cases, dev and release). C06_string is true by definition of the UTF-8 validity model (Utf8.v, Unicode table 3-7); "
+                    "that model is tied to String::from_utf8 by the differential run only."),
+        modelled="src/option_value.rs (option_from_uint, option_to_uint, OptionValueU8/16/32/64, OptionValueString); src/packet.rs add_option_as, set_options_as, get_options_as, get_first_option_as, set/get_observe_value, get_content_format",
+    ),
     "C05": dict(
         suites=[50],
         design_ref="DESIGN.md section 5, C05",
@@ -96,7 +109,6 @@ PROPS = {
 
 # properties not yet claimed (being built); kept current with MANIFEST.not_applicable
 NOT_APPLICABLE = {
-    "C06": "check under construction in this development (model and theorems not yet committed)",
     "C08": "check under construction in this development (model and theorems not yet committed)",
     "C09": "check under construction in this development (model and theorems not yet committed)",
     "C10": "check under construction in this development (model and theorems not yet committed)",
